@@ -162,7 +162,7 @@ pub fn run(args: &Args, rep: &mut Report) {
                 if fat == 32 && (spc != 1 || !thorough && nfats == 2) {
                     continue;
                 }
-                cfgs.push(VolCfg { fat, bps, spc, nfats, root_entries: if fat == 32 { 0 } else { 64 * (bps / 512) }, clusters, extra: 0, garbage: nfats == 1, slack: if spc > 1 { 1 } else { 0 } });
+                cfgs.push(VolCfg { fat, bps, spc, nfats, root_entries: if fat == 32 { 0 } else { 64 * (bps / 512) }, clusters, extra: 0, garbage: nfats == 1, slack: if spc > 1 { 1 } else { 0 }, used_device: nfats == 2 && fat != 32 });
             }
         }
     }
